@@ -151,7 +151,7 @@ fn gen_codec(ctx: &Ctx, sink: &mut dyn FnMut(String)) {
         sink(format!("c24 dec {}", hex(&e)));
         sink(format!("c24 xmltext {}", hex(&e)));
     }
-    let (n, n_rt) = if ctx.tier == Tier::Thorough { (200_000, 6_000) } else { (12_000, 500) };
+    let (n, n_rt) = if ctx.tier == Tier::Thorough { (150_000, 3_000) } else { (12_000, 150) };
     for i in 0..n {
         let s = gen_string(&mut r, if i % 50 == 0 { 400 } else { 24 });
         match i % 4 {
@@ -290,7 +290,7 @@ fn codec_sig(s: &str, import_failed: bool) -> String {
 // ---------------------------------------------------------------------------------------------
 
 fn gen_book(ctx: &Ctx, sink: &mut dyn FnMut(String)) {
-    let n = if ctx.tier == Tier::Thorough { 20_000 } else { 400 };
+    let n = if ctx.tier == Tier::Thorough { 8_000 } else { 200 };
     for i in 0..n {
         sink(format!("c24 book {}", ctx.seed.wrapping_mul(1_000_000) + i));
     }
